@@ -39,8 +39,12 @@ Queues == FlattenSeq([i \in DOMAIN ss |-> IF ss[i].live THEN [j \in DOMAIN ss[i]
 QueuesOf(s2) == FlattenSeq([i \in DOMAIN s2 |-> IF s2[i].live THEN [j \in DOMAIN s2[i].q |-> [seid |-> SeidStr(i), pdr |-> j, len |-> Len(s2[i].q[j])]] ELSE <<>>])
 TickersOf(s2) == Cardinality(UNION {{u.period : u \in {x \in s2[i].urrs : x.perio}} : i \in {j \in DOMAIN s2 : s2[j].live}})
 
+KRulesOf(s2) == FlattenSeq([i \in DOMAIN s2 |-> IF ~s2[i].live THEN <<>> ELSE
+                   <<[kind |-> "far", seid |-> SeidStr(i), id |-> 1], [kind |-> "qer", seid |-> SeidStr(i), id |-> 1]>>
+                   \o [k \in 1..Cardinality(s2[i].urrs) |-> [kind |-> "urr", seid |-> SeidStr(i), id |-> SetToSeq({u.id : u \in s2[i].urrs})[k]]]
+                   \o [k \in 1..Cardinality(s2[i].pdrs) |-> [kind |-> "pdr", seid |-> SeidStr(i), id |-> SetToSeq(s2[i].pdrs)[k]]]])
 Commit(e, out, gpdu, mq, pkts, s2) ==
-  LET Lx == [tr |-> "mc", i |-> turns + 1, e |-> e, calls |-> <<>>, gets |-> 0, mq |-> mq, out |-> out, gpdu |-> gpdu,
+  LET Lx == [tr |-> "mc", i |-> turns + 1, e |-> e, calls |-> <<>>, gets |-> 0, mq |-> mq, out |-> out, gpdu |-> gpdu, krules |-> KRulesOf(s2),
              snap |-> [rx |-> <<>>, tx |-> <<>>, txseq |-> "", free |-> <<>>, live |-> <<>>, nodes |-> <<>>],
              queues |-> QueuesOf(s2), tickers |-> TickersOf(s2), pkts |-> pkts, fatal |-> ""]
       r == StepL2(h, Lx)
@@ -156,7 +160,7 @@ KernelReport(sd, u, c) ==
 
 Init ==
   /\ ss = <<>> /\ free = <<>> /\ assoc = {} /\ txseq = 0 /\ tok = 0 /\ base = 0
-  /\ L = [tr |-> "mc", i |-> 0, e |-> Ev("init"), calls |-> <<>>, gets |-> 0, mq |-> <<>>, out |-> <<>>, gpdu |-> <<>>,
+  /\ L = [tr |-> "mc", i |-> 0, e |-> Ev("init"), calls |-> <<>>, gets |-> 0, mq |-> <<>>, out |-> <<>>, gpdu |-> <<>>, krules |-> <<>>,
           snap |-> [rx |-> <<>>, tx |-> <<>>, txseq |-> "", free |-> <<>>, live |-> <<>>, nodes |-> <<>>], queues |-> <<>>, tickers |-> 0,
           pkts |-> <<>>, fatal |-> ""]
   /\ h = H0 /\ bad = {} /\ hist = <<>> /\ turns = 0
